@@ -572,37 +572,57 @@ class Visitor(ast.NodeVisitor):
         return result
 
     def visit_BoolOp(self, node: ast.BoolOp) -> Any:
-        """Recursively visit the operands and apply the operation on them."""
-        values = [self.visit(value_node) for value_node in node.values]
-
-        # Please see "NOTE ABOUT PLACEHOLDERS AND RE-COMPUTATION"
-        if any(value is PLACEHOLDER for value in values):
-            return PLACEHOLDER
-
-        if isinstance(node.op, ast.And):
-            result = functools.reduce(lambda left, right: left and right, values, True)
-        elif isinstance(node.op, ast.Or):
-            result = functools.reduce(lambda left, right: left or right, values, True)
-        else:
+        """Recursively visit the operands in the short-circuit order of Python and apply the operation on them."""
+        if not isinstance(node.op, (ast.And, ast.Or)):
             raise NotImplementedError("Unhandled op of {}: {}".format(node, node.op))
+
+        result = None  # type: Optional[Any]
+        saw_placeholder = False
+        for i, value_node in enumerate(node.values):
+            value = self.visit(value_node)
+
+            # Please see "NOTE ABOUT PLACEHOLDERS AND RE-COMPUTATION"
+            if value is PLACEHOLDER:
+                saw_placeholder = True
+
+            if saw_placeholder:
+                # We can not know whether Python short-circuited, so we keep on visiting the remaining operands.
+                continue
+
+            result = value
+
+            if i < len(node.values) - 1:
+                # Short-circuit as Python does so that the remaining operands are not evaluated.
+                if isinstance(node.op, ast.And) and not result:
+                    break
+
+                if isinstance(node.op, ast.Or) and result:
+                    break
+
+        if saw_placeholder:
+            return PLACEHOLDER
 
         self.recomputed_values[node] = result
         return result
 
     def visit_Compare(self, node: ast.Compare) -> Any:
-        """Recursively visit the comparators and apply the operations on them."""
+        """Recursively visit the comparators in the short-circuit order of Python and apply the operations on them."""
         left = self.visit(node=node.left)
 
-        comparators = [self.visit(node=comparator) for comparator in node.comparators]
-
-        # Please see "NOTE ABOUT PLACEHOLDERS AND RE-COMPUTATION"
-        if left is PLACEHOLDER or any(
-            comparator is PLACEHOLDER for comparator in comparators
-        ):
-            return PLACEHOLDER
+        saw_placeholder = left is PLACEHOLDER
 
         result = None  # type: Optional[Any]
-        for comparator, op in zip(comparators, node.ops):
+        for i, (comparator_node, op) in enumerate(zip(node.comparators, node.ops)):
+            comparator = self.visit(node=comparator_node)
+
+            # Please see "NOTE ABOUT PLACEHOLDERS AND RE-COMPUTATION"
+            if comparator is PLACEHOLDER:
+                saw_placeholder = True
+
+            if saw_placeholder:
+                # We can not know whether Python short-circuited, so we keep on visiting the remaining comparators.
+                continue
+
             if isinstance(op, ast.Eq):
                 comparison = left == comparator
             elif isinstance(op, ast.NotEq):
@@ -626,12 +646,16 @@ class Visitor(ast.NodeVisitor):
             else:
                 raise NotImplementedError("Unhandled op of {}: {}".format(node, op))
 
-            if result is None:
-                result = comparison
-            else:
-                result = result and comparison
+            result = comparison
+
+            # Short-circuit as Python does so that the remaining comparators are not evaluated.
+            if i < len(node.ops) - 1 and not comparison:
+                break
 
             left = comparator
+
+        if saw_placeholder:
+            return PLACEHOLDER
 
         self.recomputed_values[node] = result
         return result
